@@ -120,7 +120,7 @@ func srcNorm(p *Prog, pkg, recv, m string) (string, *ast.FuncDecl) {
 	info := p.Pkg(pkg).TypesInfo
 	env := map[types.Object]string{}
 	if fd.Recv != nil && len(fd.Recv.List) == 1 && len(fd.Recv.List[0].Names) == 1 {
-		if o := info.Defs[fd.Recv.List[0].Names[0]]; o != nil {
+		if o := info.Defs[recvIdentOf(fd)]; o != nil {
 			env[o] = "$"
 		}
 	}
@@ -552,7 +552,7 @@ func checkRings(r *Reporter, p *Prog) {
 		s := strings.Join(f.Effects(), "; ")
 		// the receiver's name is not part of the contract
 		if fd := p.FuncDecl(row.pkg, row.typ, row.m); fd != nil && fd.Recv != nil && len(fd.Recv.List) == 1 && len(fd.Recv.List[0].Names) == 1 {
-			s = regexp.MustCompile(`\b`+regexp.QuoteMeta(fd.Recv.List[0].Names[0].Name)+`\.`).ReplaceAllString(s, "$$.")
+			s = regexp.MustCompile(`\b`+regexp.QuoteMeta(recvIdentOf(fd).Name)+`\.`).ReplaceAllString(s, "$$.")
 		}
 		if hasAll(s, row.want...) {
 			r.Pass("pair/ring-cursor", key, f.P.posStr(f.Body.Pos()), row.what)
@@ -1120,7 +1120,7 @@ func timeCompareDirection(p *Prog, pkg string, fd *ast.FuncDecl, key string) map
 	f := newFuncCFG(p, p.Pkg(pkg).TypesInfo, fd.Body, key)
 	recvName, argName := "", ""
 	if fd.Recv != nil && len(fd.Recv.List) == 1 && len(fd.Recv.List[0].Names) == 1 {
-		recvName = fd.Recv.List[0].Names[0].Name
+		recvName = recvIdentOf(fd).Name
 	}
 	if len(fd.Type.Params.List) == 1 && len(fd.Type.Params.List[0].Names) == 1 {
 		argName = fd.Type.Params.List[0].Names[0].Name
